@@ -32,6 +32,7 @@ def build(src, workdir):
     t = u.real_item('fr', 'struct', r'struct FrRepr\b', derive='Clone, Copy')
     u.add(re.sub(r'pub\((super|crate)\)', 'pub', t))
     u.add(spec_text('precomp.vrs'))
+    u.add(spec_text('precomp3.vrs'))
     for g, G in GROUPS.items():
         aff = G['aff']
         u.add(f"""impl {aff} {{
@@ -85,8 +86,75 @@ def build(src, workdir):
                                (r'piece_length \*= 2;', " proof { m = m + 1; } ", 'after')],
                         body_edit=lambda b: precomp_loops(b, u, inv_while, inv_for)))
         u.add("}")
+        precomp3(u, g, G)
     u.close = "} // mod code\n"
     return u
+
+
+def nib_expr(stmts_text):
+    """the 4-bit table index as the code computes it: `nibble = e0; nibble |= e1; ...` -> (((e0 | e1) | e2) | e3), words renamed"""
+    rhs = re.findall(r'nibble\s*\|?=\s*(.*?);', stmts_text, re.S)
+    if len(rhs) < 1:
+        raise weave.AnchorLost("anchor lost: nibble extraction statements")
+    e = None
+    for r in rhs:
+        r = re.sub(r'\s+', ' ', r.strip())
+        r = re.sub(r'bits\[(\d)\]', r'w\1', r)
+        r = re.sub(r'>> i\)', r'>> (i as u64))', r)
+        e = f"({r})" if e is None else f"({e} | ({r}))"
+    return e
+
+
+def precomp3(u, g, G):
+    """precomp_3 (three 64-fold doublings) and mul_precomp_3 (16-entry table of subset sums, four words in parallel)"""
+    aff = G['aff']
+    u.add(f"impl {aff} {{")
+
+    def pre_edit(b):
+        b = weave.name_for_binders(b, u.rewrites)
+        b = weave.attach_loop_invariants(b, [
+            "        invariant 0 <= i <= 3, pre@.len() == old(pre)@.len(), pre@.len() >= 3, smul(1, self.pt()) == self.pt(), p.pt() == smul(p64(i as int), self.pt()),\n"
+            "            forall|j: int| 0 <= j < i ==> #[trigger] pre@[j].pt() == smul(p64(j + 1), self.pt())",
+            "            invariant 0 <= i < 3, pre@.len() == old(pre)@.len(), pre@.len() >= 3, smul(1, self.pt()) == self.pt(), e_dbl == smul(p64(i as int), self.pt()), p.pt() == smul(pow2(_i1 as nat) as int, e_dbl),\n"
+            "                forall|j: int| 0 <= j < i ==> #[trigger] pre@[j].pt() == smul(p64(j + 1), self.pt())"], u.rewrites)
+        b = re.sub(r'for _i1 in 0\.\.', 'let ghost e_dbl = p.pt(); proof { assert(smul(1, e_dbl) == e_dbl); } for _i1 in 0..', b, count=1)
+        b = re.sub(r'(\{ p\.double\(\); \})', r'\1 proof { lemma_p64_pow2(); ax_smul_mul(pow2(64) as int, p64(i as int), self.pt()); assert(p64(1) * p64(0) == p64(1)); }', b, count=1)
+        return b.replace('{', '{ proof { assert(smul(1, self.pt()) == self.pt()); }', 1)
+    u.add(u.real_fn(G['mod'], f'impl CurveAffine for {aff}', 'precomp_3',
+                    "    requires old(pre)@.len() >= 3\n    ensures is_pre3(final(pre)@, self.pt()), final(pre)@.len() == old(pre)@.len()", vis='pub',
+                    sig_edit=lambda sg: re.sub(r'&mut \[Self\]', f'&mut [{aff}]', sg), body_edit=pre_edit))
+
+    def mul_edit(body):
+        body = body.replace('other.into()', 'other')
+        m0 = re.search(r'let mut nibble = .*?(?=let mut res)', body, re.S)
+        ml = re.search(r'nibble = \(\(bits\[3\] >> i\).*?(?=res\.add_assign)', body, re.S)
+        if not m0 or not ml:
+            raise weave.AnchorLost("anchor lost: nibble extraction in mul_precomp_3")
+        e0, el = nib_expr(m0.group(0)), nib_expr(ml.group(0))
+        f0 = " ".join(f"assert(bitu(nibble, {k}) == bitu(w{k}, 63)) by(bit_vector) requires nibble == {e0};" for k in range(4))
+        fl = " ".join(f"assert(bitu(nibble, {k}) == bitu(w{k}, i as u64)) by(bit_vector) requires nibble == {el}, 0 <= i < 63;" for k in range(4))
+        ws = "let w0 = bits[0]; let w1 = bits[1]; let w2 = bits[2]; let w3 = bits[3];"
+        body = body.replace('let mut res = precomp[nibble as usize];',
+                            f" proof {{ {ws} {f0} assert(nibble <= 15) by(bit_vector) requires nibble == {e0}; lemma_acc4_top(bits@); }} let mut res = precomp[nibble as usize];", 1)
+        body = weave.rewrite_rev_range(body, u.rewrites, [
+            "    invariant 0 <= i <= 63, res.pt() == smul(acc4(bits@, i as u64), self.pt()), bits@.len() == 4, precomp@.len() == 16,\n"
+            "        forall|b: int| 0 <= b < 16 ==> #[trigger] precomp@[b].pt() == smul(sub4(b as u64), self.pt())"])
+        body = body.replace('res.add_assign(&precomp[nibble as usize]);',
+                            f" proof {{ {ws} {fl} assert(nibble <= 15) by(bit_vector) requires nibble == {el}, 0 <= i < 63; lemma_acc4_step(bits@, i as u64); }} res.add_assign(&precomp[nibble as usize]);", 1)
+        # the table: entries 0..8 written out, 9..15 by the loop
+        body = weave.name_for_binders(body, u.rewrites)
+        body = weave.attach_loop_invariants(body, [
+            "        invariant 9 <= i <= 16, precomp@.len() == i, is_pre3(pre@, self.pt()), smul(1, self.pt()) == self.pt(),\n"
+            "            forall|b: int| 0 <= b < i ==> #[trigger] precomp@[b].pt() == smul(sub4(b as u64), self.pt())", None], u.rewrites)
+        body = body.replace('precomp[i].add_assign_mixed(&pre[2]);', 'proof { lemma_sub4_high(i as u64); } precomp[i].add_assign_mixed(&pre[2]);', 1)
+        body = body.replace('for i in 9..16', 'proof { lemma_sub4_values(); } for i in 9..16', 1)
+        return body.replace('{', '{ proof { assert(smul(1, self.pt()) == self.pt()); lemma_sub4_values(); }', 1)
+    u.add(u.real_fn(G['mod'], f'impl CurveAffine for {aff}', 'mul_precomp_3',
+                    "    requires is_pre3(pre@, self.pt())\n    ensures ret.pt() == smul(limbs_val(other.0@) as int, self.pt())", vis='pub',
+                    sig_edit=lambda sg: re.sub(r'&\[Self\]', f'&[{aff}]', re.sub(r'\bS\b', 'FrRepr', re.sub(r'<S: Into<.*?>>\s*\(', '(', sg, flags=re.S))),
+                    subst=(('Self::Projective::zero()', f'{g}::zero()'),),
+                    body_edit=mul_edit, tail=" proof { lemma_acc4_zero(bits@); } "))
+    u.add("}")
 
 
 def precomp_loops(body, u, inv_while, inv_for):
@@ -96,7 +164,7 @@ def precomp_loops(body, u, inv_while, inv_for):
            "            power_of_2_times_self.pt() == smul(pow2(_i1 as nat) as int, e_dbl),\n"
            "            forall|b: int| 0 <= b < 2 * piece_length ==> #[trigger] pre@[b].pt() == smul(sub_sum(b as u64), self.pt())")
     body = weave.attach_loop_invariants(body, [inv_while, inv_for, dbl], u.rewrites)
-    body = body.replace('for _i1 in 0..32', 'let ghost e_dbl = power_of_2_times_self.pt(); for _i1 in 0..32', 1)
+    body = re.sub(r'for _i1 in 0\.\.', 'let ghost e_dbl = power_of_2_times_self.pt(); for _i1 in 0..', body, count=1)
     # after the doubling loop: pow2(32) * p32(m) == p32(m+1)
     body = re.sub(r'(\{ power_of_2_times_self\.double\(\); \})', r'\1 proof { assert(pow2(32) == 0x1_0000_0000) by(compute); ax_smul_mul(0x1_0000_0000int, p32(m), self.pt()); lemma_p32_step(m); }', body, count=1)
     return body
